@@ -177,6 +177,13 @@ class Effects(object):
                                 r = self.model.resolve(m, x.value.id)
                                 if r is not None and r[0] == 'class':
                                     out.add((r[2].name, x.attr))
+                                    continue
+                                # cls.attr = ...  inside a classmethod of the class
+                                fn_ = m.enclosing_function(x)
+                                if fn_ is not None and any(src(d_) == 'classmethod' for d_ in fn_.decorator_list) and fn_.args.args and \
+                                        fn_.args.args[0].arg == x.value.id:
+                                    cn = m.qualname_of(fn_).split('.')[0]
+                                    out.add((cn, x.attr))
             self._cas = out
         return self._cas
 
@@ -800,11 +807,25 @@ class _Interp(object):
         return base.element() if base.has('fresh') and base.elem is not None else base
 
     def _package_class(self, node, env):
-        """(Module, ClassDef) when ``node`` is a bare name that denotes a class of the package (not a local)."""
+        """(Module, ClassDef) when ``node`` denotes a class of the package: a bare name (not a local), the first parameter of a
+        classmethod, type(self) or self.__class__."""
         if isinstance(node, ast.Name) and node.id not in env and (self.closure_env is None or node.id not in self.closure_env):
             r = self.eff.model.resolve(self.m, node.id)
             if r is not None and r[0] == 'class':
                 return r[1], r[2]
+        owner = self.eff.cg.cls_of.get(self.key)
+        if owner is None or isinstance(self.f, ast.Lambda):
+            return None
+        if isinstance(node, ast.Name) and any(src(d_) == 'classmethod' for d_ in self.f.decorator_list) and self.f.args.args and \
+                self.f.args.args[0].arg == node.id:
+            return owner
+        me = sa.self_name(self.f)
+        if me is not None:
+            if isinstance(node, ast.Call) and sa.call_name(node) == 'type' and len(node.args) == 1 and isinstance(node.args[0], ast.Name) \
+                    and node.args[0].id == me:
+                return owner
+            if isinstance(node, ast.Attribute) and node.attr == '__class__' and isinstance(node.value, ast.Name) and node.value.id == me:
+                return owner
         return None
 
     def _rooted_in_module(self, e, env):
